@@ -4,16 +4,146 @@
 From Coq Require Import List NArith Bool Arith.
 Import ListNotations.
 Require Import XV.XpAst XV.GenXpc XV.GenPatc XV.XpcLexDefs XV.XpcParseDefs XV.PatcDefs XV.PatcScoreDefs.
-Require Import XV.PatcModel XV.PatcScoreModel.
+Require Import XV.XpcPrintDefs XV.PatcPrintDefs XV.PatcSemDefs.
+Require Import XV.PatcModel XV.PatcScoreModel XV.PatcPrintModel XV.PatcExprModel XV.PatcSemModel XV.PatcShapeModel XV.PatcRefuseModel.
+Require XV.PatDefs XV.PatModel XV.TmplDefs XV.TmplShape.
+Require Import XV.PatcTmplModel.
 
 (** The pattern compiler never runs out of fuel: every token list / string is compiled or refused. *)
-Theorem pattern_parse_fuel_sufficient : forall fl ns ts, pparse fl ns ts <> Fuel.
+Theorem pattern_parse_fuel_sufficient : forall fl pf ns ts, pparse fl pf ns ts <> Fuel.
 Proof. exact pparse_fuel_sufficient_m. Qed.
 Print Assumptions pattern_parse_fuel_sufficient.
 
-Theorem pattern_compile_total : forall fl ns s, pcompile fl ns s <> Fuel.
+Theorem pattern_compile_total : forall fl pf ns s, pcompile fl pf ns s <> Fuel.
 Proof. exact pcompile_total_m. Qed.
 Print Assumptions pattern_compile_total.
+
+(** Round trip: for every canonical compiled pattern (any head, any number of steps of the three step codes, predicates,
+    unions; prefix-free) within the nesting limit, compiling its printed tokens returns the pattern: in particular the
+    step code is eMATCH_ANY_ANCESTOR exactly where '//' follows a child step, and the PREDICATE_WITH_POSITION flags are
+    those of the expression compiler. *)
+Theorem pattern_parse_print : forall fl pf ns P, pcanon P = true -> dep_pattern P <= gen_xpc_max_nesting ->
+  pparse fl pf ns (ppr P) = Ok P.
+Proof. exact pattern_parse_print_m. Qed.
+Print Assumptions pattern_parse_print.
+
+(** The same tokens, compiled by the EXPRESSION compiler (XpcParseDefs.parse, C02c), give the expression the pattern
+    abbreviates: root step for '/', descendant-or-self::node() for '//', child / attribute steps with the same node tests
+    and predicates, the id()/key() call as filter-expression head, eOP_UNION over the alternatives. *)
+Theorem pattern_as_expression : forall fl ns P, pcanon P = true -> S (dep_pattern P) <= gen_xpc_max_nesting ->
+  parse fl ns (ppr P) = Ok (expr_of P).
+Proof. exact pattern_as_expression_m. Qed.
+Print Assumptions pattern_as_expression.
+
+(** C09 end to end at token level.  For every canonical pattern P: its tokens compile as a pattern to P and as an
+    expression to expr_of P, and for every interpretation of node tests / predicates / id-key node-sets (predicates whose
+    compile-time flag is unset do not depend on position), every well-formed document and every node: the matcher run on
+    the op codes the pattern compiler wrote says "match" iff some ancestor-or-self context makes the compiled expression
+    select the node.  Uses Properties_C09.match_iff_select as a lemma. *)
+Theorem compiled_pattern_matches_iff_expression_selects :
+  forall fl pf ns P, pcanon P = true -> S (dep_pattern P) <= gen_xpc_max_nesting ->
+  pparse fl pf ns (ppr P) = Ok P /\ parse fl ns (ppr P) = Ok (expr_of P) /\
+  forall I D n, interp_ok I -> PatDefs.wf_doc D = true -> n < length D ->
+    (pattern_matches I D P n = true <-> expr_selects I D (expr_of P) n).
+Proof. exact compose_m. Qed.
+Print Assumptions compiled_pattern_matches_iff_expression_selects.
+
+(** the op codes the compiler wrote are the ones the matcher model of the main part derives from the surface path *)
+Theorem compiled_op_codes_agree : forall I D a, canon_lp a = true ->
+  PatDefs.compile D (path_of_lp I a) = compiled_of I D a.
+Proof. exact compile_agree. Qed.
+Print Assumptions compiled_op_codes_agree.
+
+(** EVERY accepted token list: the compiled pattern has the shape the matcher expects (head codes in front,
+    eMATCH_ANY_ANCESTOR_WITH_FUNCTION_CALL only behind the function, the three step codes, eMATCH_ANY_ANCESTOR never
+    last), or is an empty alternative (K-patc-empty-alt). *)
+Theorem compiled_pattern_well_shaped : forall fl pf ns ts P, pparse fl pf ns ts = Ok P ->
+  Forall (fun a => a = [] \/ shape_lp a = true) P.
+Proof. exact compiled_shape_m. Qed.
+Print Assumptions compiled_pattern_well_shaped.
+
+(** ... and therefore, for every accepted token list without an empty alternative, the matcher run on the op codes
+    says "match" iff the path read back from the op codes selects the node from some ancestor-or-self context. *)
+Theorem accepted_pattern_matches_iff_selects : forall fl pf ns ts P, pparse fl pf ns ts = Ok P -> no_empty_alt P = true ->
+  forall I D n, interp_ok I -> PatDefs.wf_doc D = true -> n < length D ->
+    (pattern_matches I D P n = true <-> PatDefs.selects D (map (path_of_lp I) P) n).
+Proof. exact accepted_pattern_matches_iff_selects_m. Qed.
+Print Assumptions accepted_pattern_matches_iff_selects.
+
+(** What is refused (first step of the pattern): axes other than child / attribute, variable references, function calls
+    other than id( / key( . *)
+Theorem pattern_refuses_other_axis : forall fl pf ns name r,
+  N.eqb (tokc [name]) ch_at = false -> N.eqb (tokc [name]) ch_solidus = false -> N.eqb (tokc [name]) ch_bar = false ->
+  str_eqb name kw_child = false -> str_eqb name kw_attribute = false ->
+  pparse fl pf ns (name :: gen_xpc_kw_axis_sep :: r) = Err.
+Proof. exact refuses_other_axis_m. Qed.
+Print Assumptions pattern_refuses_other_axis.
+Theorem pattern_refuses_variable : forall fl pf ns r, ns [ch_dollar] = None -> pparse fl pf ns ([ch_dollar] :: r) = Err.
+Proof. exact refuses_variable_m. Qed.
+Print Assumptions pattern_refuses_variable.
+Theorem pattern_refuses_function_call : forall fl pf ns name r,
+  N.eqb (tokc [name]) ch_at = false -> N.eqb (tokc [name]) ch_solidus = false -> N.eqb (tokc [name]) ch_bar = false ->
+  str_eqb name kw_id = false -> str_eqb name kw_key = false -> ntype_of_name name = None ->
+  pparse fl pf ns (name :: [ch_lparen] :: r) = Err.
+Proof. exact refuses_function_call_m. Qed.
+Print Assumptions pattern_refuses_function_call.
+Example refuses_descendant_axis : pparse flags_here pflags_here (fun _ => None) [[100%N; 101%N; 115%N; 99%N; 101%N; 110%N; 100%N; 97%N; 110%N; 116%N]; gen_xpc_kw_axis_sep; [97%N]] = Err.
+Proof. vm_compute. reflexivity. Qed.
+
+(* the hypotheses are satisfiable: a canonical pattern with every head and step kind,  id('x')//child::a[last()]/attribute::b | / | //child::*//child::text() *)
+Definition ex_a : str := [97%N].
+Definition ex_last : expr := EFunc [108%N; 97%N; 115%N; 116%N] [].
+Definition ex_pattern : pattern :=
+  [ [head_fn (EFunc kw_id [ELiteral [120%N]]); head_anyf; (PkImmediateAncestor, TName NsEmpty (Some ex_a), [(true, ex_last)]);
+     (PkAttribute, TName NsEmpty (Some [98%N]), [])];
+    [head_root];
+    [head_anyp; (PkAnyAncestor, TName NsEmpty None, []); (PkImmediateAncestor, TText, [])] ].
+Example ex_pattern_canon : pcanon ex_pattern = true /\ S (dep_pattern ex_pattern) <= gen_xpc_max_nesting.
+Proof. split; [vm_compute; reflexivity|apply Nat.leb_le; vm_compute; reflexivity]. Qed.
+Example ex_pattern_compiles : pparse flags_here pflags_here (fun _ => None) (ppr ex_pattern) = Ok ex_pattern.
+Proof. vm_compute. reflexivity. Qed.
+Definition ex_interp : interp :=
+  mkI (fun _ => PatDefs.TWild) (fun p => PatDefs.mkP (fst p) false (fun _ _ _ => PatDefs.PB true)) (fun _ _ => true).
+Example ex_interp_ok : interp_ok ex_interp.
+Proof. intros p Hf n i s i' s'. reflexivity. Qed.
+
+(** What the UNREPAIRED compiler accepts although it is not a Pattern (XSLT 1.0 section 5.2): witnesses of the four recorded
+    leniencies (K-patc-empty-alt, K-patc-idkey-args, K-patc-triple-slash, K-patc-idkey-no-slash); with the three functions
+    in the repaired shape (fixes/C09c/01_pattern_grammar.patch) the same token lists are refused, and no compiled pattern
+    has an empty alternative whatever the input. *)
+Definition tk (l : list N) : tok := l.
+Definition t_bar := tk [124%N]. Definition t_sl := tk [47%N]. Definition t_lp := tk [40%N]. Definition t_rp := tk [41%N].
+Definition t_a := tk [97%N]. Definition t_id := tk [105%N; 100%N]. Definition t_eq := tk [61%N].
+Definition t_litx := tk [39%N; 120%N; 39%N].
+Theorem pattern_alternatives_nonempty_refuted :
+  exists ts P, pparse flags_here pflags_before (fun _ => None) ts = Ok P /\ no_empty_alt P = false.
+Proof. exists [t_bar; t_a], [[]; [(PkImmediateAncestor, TName NsEmpty (Some [97%N]), [])]]. split; vm_compute; reflexivity. Qed.
+Theorem pattern_alternatives_nonempty_partial : forall fl pf ns ts P,
+  px_lpp pf = true -> pparse fl pf ns ts = Ok P -> no_empty_alt P = true.
+Proof. exact alternatives_nonempty_fixed_m. Qed.
+Print Assumptions pattern_alternatives_nonempty_partial.
+Theorem idkey_arguments_are_literals_refuted :
+  exists ts f, pparse flags_here pflags_before (fun _ => None) ts = Ok [[head_fn f]] /\
+    (match f with EFunc _ [ELiteral _] => false | _ => true end) = true.
+Proof.
+  exists [t_id; t_lp; t_litx; t_eq; t_litx; t_rp], (EFunc [105%N; 100%N] [EEq (ELiteral [120%N]) (ELiteral [120%N])]).
+  split; vm_compute; reflexivity.
+Qed.
+Theorem triple_slash_refused_refuted :
+  exists P, pparse flags_here pflags_before (fun _ => None) [t_sl; t_sl; t_sl; t_a] = Ok P.
+Proof. eexists. vm_compute. reflexivity. Qed.
+Theorem idkey_head_needs_slash_refuted :
+  exists P, pparse flags_here pflags_before (fun _ => None) [t_id; t_lp; t_litx; t_rp; t_a] = Ok P.
+Proof. eexists. vm_compute. reflexivity. Qed.
+Example leniencies_refused_when_repaired :
+  pparse flags_here pflags_fixed (fun _ => None) [t_bar; t_a] = Err /\
+  pparse flags_here pflags_fixed (fun _ => None) [t_a; t_bar] = Err /\
+  pparse flags_here pflags_fixed (fun _ => None) [t_id; t_lp; t_litx; t_eq; t_litx; t_rp] = Err /\
+  pparse flags_here pflags_fixed (fun _ => None) [t_id; t_lp; t_rp] = Err /\
+  pparse flags_here pflags_fixed (fun _ => None) [t_sl; t_sl; t_sl; t_a] = Err /\
+  pparse flags_here pflags_fixed (fun _ => None) [t_id; t_lp; t_litx; t_rp; t_a] = Err /\
+  pparse flags_here pflags_fixed (fun _ => None) (ppr ex_pattern) = Ok ex_pattern.
+Proof. repeat split; vm_compute; reflexivity. Qed.
 
 (** Scores.  A node test of a compiled step (never eNODETYPE_ROOT) scores eMatchScoreNone exactly when the test function
     the NodeTester constructor picks refuses the node. *)
@@ -44,6 +174,14 @@ Theorem single_step_score_is_target_class : forall k t x sc, step_test t = true 
   single_step_score (k, t, []) x = Some sc -> sc <> ScNone -> sc = target_class [(k, t, [])].
 Proof. exact single_step_score_is_target_class_m. Qed.
 Print Assumptions single_step_score_is_target_class.
+
+(** C10 link: the class of a compiled alternative is the score C10's template model derives for its shape from the same
+    getTargetData (GenTmpl) — whose value Properties_C10.default_priority_correct proves to be the default priority of
+    XSLT 1.0 section 5.5. *)
+Theorem target_class_is_template_score : forall a sh, shape_lp a = true -> tshape_of a = Some sh ->
+  tmpl_score (target_class a) = snd (TmplShape.target_data sh).
+Proof. exact target_class_is_tmpl_score_m. Qed.
+Print Assumptions target_class_is_template_score.
 
 Example score_qname : node_test_score (TName (NsUri [117%N]) (Some [97%N])) false (mkX NkElem [117%N] [97%N]) = ScQName.
 Proof. reflexivity. Qed.
